@@ -109,6 +109,37 @@ theorem unquote_quote (s : List Nat) (hs : ∀ b ∈ s, b < 256) : unquote (quot
 theorem quote_wf (s : List Nat) (hs : ∀ b ∈ s, b < 256) : (unquote (quote s)).isSome = true := by
   rw [unquote_quote s hs]; rfl
 
+/-- **faithful**: two different byte strings never render to the same literal -/
+theorem quote_injective (s t : List Nat) (hs : ∀ b ∈ s, b < 256) (ht : ∀ b ∈ t, b < 256)
+    (h : quote s = quote t) : s = t := by
+  have h1 := unquote_quote s hs
+  rw [h, unquote_quote t ht] at h1
+  exact (Option.some.inj h1).symm
+
+theorem quoteByte_printable (b : Nat) (hb : b < 256) : ∀ c ∈ quoteByte b, 32 ≤ c ∧ c ≤ 126 := by
+  have : ∀ k : Fin 256, ∀ c ∈ quoteByte k.val, 32 ≤ c ∧ c ≤ 126 := by decide +kernel
+  exact this ⟨b, hb⟩
+
+/-- **pure printable ASCII**: every byte of every literal (delimiters included) is in 0x20 … 0x7e, whatever
+    the input bytes — control characters, DEL and non-ASCII bytes only ever appear escaped -/
+theorem quote_printable (s : List Nat) (hs : ∀ b ∈ s, b < 256) : ∀ c ∈ quote s, 32 ≤ c ∧ c ≤ 126 := by
+  intro c hc
+  simp only [quote, List.mem_cons, List.mem_append, List.mem_flatMap, List.not_mem_nil, or_false] at hc
+  rcases hc with rfl | ⟨b, hb, hcb⟩ | rfl
+  · omega
+  · exact quoteByte_printable b (hs b hb) c hcb
+  · omega
+
+/-- the only unescaped `"` of a literal are its two delimiters: inside the body a quote is always preceded by
+    a backslash that is itself an escape introducer (stated on the per-byte emission) -/
+theorem quoteByte_no_raw_quote (b : Nat) (hb : b < 256) :
+    quoteByte b = [b] ∧ b ≠ 34 ∧ b ≠ 92 ∨ (quoteByte b).head? = some 92 ∧ 2 ≤ (quoteByte b).length := by
+  have : ∀ k : Fin 256, quoteByte k.val = [k.val] ∧ k.val ≠ 34 ∧ k.val ≠ 92 ∨
+      (quoteByte k.val).head? = some 92 ∧ 2 ≤ (quoteByte k.val).length := by decide +kernel
+  exact this ⟨b, hb⟩
+
+example : quote [0, 200, 127] = [34, 92,120,48,48, 92,120,99,56, 92,120,55,102, 34] := by decide
+
 -- non-vacuity / the motivating input: quotes and backslashes
 example : quote [97, 34, 98, 92, 99] = [34, 97, 92, 34, 98, 92, 92, 99, 34] := by decide
 
